@@ -202,8 +202,8 @@ package dig
 //@   site call (dig.param).Build #1: assert[C01:params-built-in-order] $recv == pl.Params[$i]
 
 //@ func (n *constructorNode) Call(c) (err)
-//@   ensures[C03:knot-mono] knotMono()
-//@   onpanic[C03:knot-mono-panic] knotMono()
+//@   ensures[C03:knot-mono,C02:knot-mono,C07:knot-mono] knotMono()
+//@   onpanic[C03:knot-mono-panic,C02:knot-mono-panic,C07:knot-mono-panic] knotMono()
 //@   requires n != nil && c != nil && is(c, ptr(Scope)) && as(c, ptr(Scope)) != nil
 //@   modifies @knot
 //@   allocates
@@ -246,8 +246,8 @@ package dig
 //@   site call (dig.resultList).ExtractList #1: assert[C01:extracts-own-results] $recv == n.resultList && $arg2 == ret(invokerFn_1, 0)
 
 //@ func (n *decoratorNode) Call(s) (err)
-//@   ensures[C03:knot-mono] knotMono()
-//@   onpanic[C03:knot-mono-panic] knotMono()
+//@   ensures[C03:knot-mono,C02:knot-mono,C07:knot-mono] knotMono()
+//@   onpanic[C03:knot-mono-panic,C02:knot-mono-panic,C07:knot-mono-panic] knotMono()
 //@   requires n != nil && s != nil && is(s, ptr(Scope)) && as(s, ptr(Scope)) != nil
 //@   requires[C02:not-on-stack] n.state != decoratorOnStack
 //@   modifies @knot
@@ -1679,12 +1679,12 @@ package dig
 //@   ensures[C04:satisfiable-singles-are-not-reported,C17:satisfiable-singles-are-not-reported] (forall j int :: 0 <= j && j < len(params) ==> !is(params[j], paramObject) && !(is(params[j], paramSingle) && needy(scopeOf(c), as(params[j], paramSingle)))) ==> len(missing) == 0
 //@   ensures[C04:a-missing-field-of-a-parameter-object-is-reported,C15:a-missing-field-of-a-parameter-object-is-reported] (exists j int, k int :: 0 <= j && j < len(params) && is(params[j], paramObject) && needyField(scopeOf(c), as(params[j], paramObject), k)) ==> len(missing) > 0
 //@   ensures[C04:a-missing-field-of-a-nested-parameter-object-is-reported,C15:a-missing-field-of-a-nested-parameter-object-is-reported] (exists j int, k int, m int :: 0 <= j && j < len(params) && is(params[j], paramObject) && needyField2(scopeOf(c), as(params[j], paramObject), k, m)) ==> len(missing) > 0
-//@   loop range params #1: invariant[C04:object-fields-reported-so-far] (exists j int, k int :: 0 <= j && j < $i && is(params[j], paramObject) && needyField(scopeOf(c), as(params[j], paramObject), k)) ==> len(missingDeps) > 0
-//@   loop range params #1: invariant[C04:nested-object-fields-reported-so-far] (exists j int, k int, m int :: 0 <= j && j < $i && is(params[j], paramObject) && needyField2(scopeOf(c), as(params[j], paramObject), k, m)) ==> len(missingDeps) > 0
+//@   loop range params #1: invariant[C04:object-fields-reported-so-far,C15:object-fields-reported-so-far] (exists j int, k int :: 0 <= j && j < $i && is(params[j], paramObject) && needyField(scopeOf(c), as(params[j], paramObject), k)) ==> len(missingDeps) > 0
+//@   loop range params #1: invariant[C04:nested-object-fields-reported-so-far,C15:nested-object-fields-reported-so-far] (exists j int, k int, m int :: 0 <= j && j < $i && is(params[j], paramObject) && needyField2(scopeOf(c), as(params[j], paramObject), k, m)) ==> len(missingDeps) > 0
 //@   loop range p.Fields #1: invariant[C04:earlier-reports-stay-while-fields-are-examined] ((exists j int :: 0 <= j && j < $i1 && is(params[j], paramSingle) && needy(scopeOf(c), as(params[j], paramSingle))) ==> len(missingDeps) > 0)
 //@        && ((exists j int, k int :: 0 <= j && j < $i1 && is(params[j], paramObject) && needyField(scopeOf(c), as(params[j], paramObject), k)) ==> len(missingDeps) > 0)
 //@        && ((exists j int, k int, m int :: 0 <= j && j < $i1 && is(params[j], paramObject) && needyField2(scopeOf(c), as(params[j], paramObject), k, m)) ==> len(missingDeps) > 0)
-//@   loop range p.Fields #1: invariant[C04:fields-reported-so-far] ((exists k int :: k < $i && needyField(scopeOf(c), p, k)) ==> len(missingDeps) > 0) && ((exists k int, m int :: k < $i && needyField2(scopeOf(c), p, k, m)) ==> len(missingDeps) > 0)
+//@   loop range p.Fields #1: invariant[C04:fields-reported-so-far,C15:fields-reported-so-far] ((exists k int :: k < $i && needyField(scopeOf(c), p, k)) ==> len(missingDeps) > 0) && ((exists k int, m int :: k < $i && needyField2(scopeOf(c), p, k, m)) ==> len(missingDeps) > 0)
 //@   loop range p.Fields #1: complete[C15:every-field-of-a-parameter-object-examined]
 //@   loop range params #1: complete[C04:every-parameter-examined]
 //@   loop range params #1: invariant[C04:reported-so-far] (exists j int :: 0 <= j && j < $i && is(params[j], paramSingle) && needy(scopeOf(c), as(params[j], paramSingle))) ==> len(missingDeps) > 0
